@@ -324,4 +324,63 @@ theorem nodeStep_ok_iff (spec : Spec) (ns : NodeSpec) :
         · exact hnd hd
         · exact h4 (hmarks e h1 h2 h3)
 
+/-- **acceptance, exactly**: `Schema(spec)` builds iff the checks before the loop pass, every node type passes its
+    round (no name clash, the parser accepts the content expression, the expression has no dead end, the `marks`
+    expression names known marks), and every `excludes` names known marks -/
+theorem buildSchema_ok_iff (spec : Spec) :
+    (∃ S, buildSchema spec = .ok S) ↔
+      HeadOk spec ∧
+      (∀ n ∈ spec.nodes, (∀ m ∈ spec.marks, m.name ≠ n.name) ∧
+        (∃ oe, parseC (nameTable spec) n.content = .ok oe ∧ ¬ DeadEndSpec (contentRE oe) (specGen spec)) ∧
+        (∀ e, n.marks = some e → e ≠ "_" → e ≠ "" → ExprKnown spec.marks e)) ∧
+      (∀ m ∈ spec.marks, ∀ e, m.excludes = some e → e ≠ "" → ExprKnown spec.marks e) := by
+  cases hb : buildSchema spec with
+  | error err =>
+    simp only [reduceCtorEq, exists_false, false_iff]
+    rintro ⟨hhead, hnodes, hmarks⟩
+    obtain ⟨⟨top, htop⟩, textTy, htext, hattrs⟩ := hhead
+    rcases (buildSchema_error_iff spec err).1 hb with ⟨h, _⟩ | ⟨_, h, _⟩ | ⟨_, ⟨t, h1, h2⟩, _⟩ | ⟨_, i, hi, he, _⟩ |
+      ⟨_, _, e, he, _⟩
+    · rw [htop] at h; cases h
+    · rw [htext] at h; cases h
+    · rw [htext] at h1
+      cases h1
+      rw [hattrs] at h2
+      cases h2
+    · obtain ⟨nt, hnt⟩ := (nodeStep_ok_iff spec _).2 (hnodes _ (List.getElem_mem hi))
+      rw [hnt] at he
+      cases he
+    · obtain ⟨k, hk, hke⟩ := seqIdx_error _ _ _ he
+      obtain ⟨mt, hmt⟩ := (compileMark_ok_iff spec (0 + k) spec.marks[k]).2 (hmarks _ (List.getElem_mem hk))
+      rw [hmt] at hke
+      cases hke
+  | ok S =>
+    simp only [Except.ok.injEq, exists_eq', true_iff]
+    unfold buildSchema at hb
+    split at hb
+    · cases hb
+    · rename_i top htop
+      split at hb
+      · cases hb
+      · rename_i textTy htext
+        split at hb
+        · cases hb
+        · rename_i hattrs
+          split at hb
+          · cases hb
+          · rename_i nodes hnodes
+            split at hb
+            · cases hb
+            · rename_i marks hmarks
+              rw [buildNodes_steps spec spec.nodes [] 0 (fun p hp => by simp at hp)] at hnodes
+              refine ⟨⟨⟨top, htop⟩, textTy, htext, by simpa using hattrs⟩, ?_, ?_⟩
+              · intro n hn
+                obtain ⟨i, hi, rfl⟩ := List.getElem_of_mem hn
+                have := (seqIdx_ok_iff (f := fun _ ns => nodeStep spec ns) spec.nodes 0).1 ⟨nodes, hnodes⟩ i hi
+                exact (nodeStep_ok_iff spec _).1 this
+              · intro m hm
+                obtain ⟨i, hi, rfl⟩ := List.getElem_of_mem hm
+                have := (seqIdx_ok_iff (f := compileMark spec) spec.marks 0).1 ⟨marks, hmarks⟩ i hi
+                exact (compileMark_ok_iff spec _ _).1 this
+
 end PM.SchemaBuild
